@@ -26,6 +26,7 @@ structure Sess where
   mem   : Mem := {}
   exp   : Float32 := 2
   modc  : Bool := false          -- comparator: false = numeric, true = v % 10
+  sparse : Bool := false         -- obs=sparse: the content sweep is printed by `observe` only
 
 def keyOf (modc : Bool) (v : Nat) : Nat := if modc then v % 10 else v
 /-- the harness comparators (deliberately not -1/0/1) -/
@@ -51,9 +52,12 @@ def phys (r : Option PQueue) (out : Option Nat) : String :=
 def inv (modc : Bool) (r : Option PQueue) : Bool :=
   match r with | none => true | some r => decide (r.Inv (cmpOf modc))
 
-def lineS (hd : String) (s : Sess) : String := s!"S {hd} {obsS s.modc s.spec}"
-def lineM (hd : String) (s : Sess) (out : Option Nat) : String :=
-  s!"M {hd} {obsM s.modc s.model} | {phys s.model out} | {fmtMem s.mem} | {fmtFlags (inv s.modc s.model) s.mem}"
+def lineS' (full : Bool) (hd : String) (s : Sess) : String :=
+  if full then s!"S {hd} {obsS s.modc s.spec}" else s!"S {hd}"
+def lineM' (full : Bool) (hd : String) (s : Sess) (out : Option Nat) : String :=
+  s!"M {hd} {if full then obsM s.modc s.model else ""} | {phys s.model out} | {fmtMem s.mem} | {fmtFlags (inv s.modc s.model) s.mem}"
+def lineS (hd : String) (s : Sess) : String := lineS' (!s.sparse) hd s
+def lineM (hd : String) (s : Sess) (out : Option Nat) : String := lineM' (!s.sparse) hd s out
 
 def hdOut (modc : Bool) (st : Stat) (o : Option Nat) (quiet : Bool) : String :=
   match o with
@@ -68,6 +72,7 @@ def step (s : Sess) (c : Cmd) : Sess × String × String :=
     let cap := if dflt then Gen.PQUEUE_DEFAULT_CAPACITY else c.nat "cap" Gen.PQUEUE_DEFAULT_CAPACITY
     let f := if dflt then defaultFactor else effFactor (match c.str "exp" with | some t => parseF32 t | none => defaultFactor)
     let modc := (c.str "cmp").getD "num" == "mod"
+    let sparse := (c.str "obs").getD "full" == "sparse"
     let invalid := cap = 0 || exGeF f (Gen.CC_MAX_ELEMENTS / cap) || cap > Gen.CC_MAX_ELEMENTS / PQueue.ptrSize
     let (sst, sp) : Stat × Option (List Nat) :=
       if invalid then (.errInvalidCapacity, none)
@@ -78,13 +83,13 @@ def step (s : Sess) (c : Cmd) : Sess × String × String :=
     let absurd := !dflt && cap * PQueue.ptrSize > 2 ^ 40
     -- a model buffer of more than 2^24 slots is not materialised: no model line for such sessions
     if !invalid && !absurd && cap > 16777216 then
-      let s' : Sess := { mem := m, exp := f, modc }
+      let s' : Sess := { mem := m, exp := f, modc, sparse }
       (s', lineS (fmtStat sst) { s' with spec := sp }, "M ? capacity too large for the executable model")
     else
     let m := if absurd && c.sched.isEmpty then s.mem.begin [false, true] else m
     let (st, r, m) := PQueue.new cap (exGeF f) triple m
     let m := if absurd && c.sched.isEmpty then { m with nrefused := 0 } else m
-    let s' : Sess := { model := r, spec := sp, scap := cap, mem := m, exp := f, modc }
+    let s' : Sess := { model := r, spec := sp, scap := cap, mem := m, exp := f, modc, sparse }
     (s', lineS (fmtStat sst) s', lineM (fmtStat st) s' none)
   | _ =>
   match s.model, s.spec with
@@ -92,6 +97,9 @@ def step (s : Sess) (c : Cmd) : Sess × String × String :=
     let cmp := cmpOf s.modc
     let grow := growF s.exp
     match c.op with
+    | "observe" =>
+      let s' : Sess := { s with mem := m }
+      (s', lineS' true "st=-" s', lineM' true "st=-" s' none)
     | "push" =>
       let x := c.arg 0
       let (st, r', m) := PQueue.push cmp grow r x m
